@@ -161,8 +161,9 @@ struct SongOpts
     bool eotVariants;       // missing EOT, trailing junk, EOT with company/alone
     double maxSeconds;      // approximate cap of the song length
     int loopMarkers;        // 0: none (generator never emits CC110/111 or loop markers)
+    bool smallAlphabet;     // notes drawn from 3 channels x 6 keys: different songs collide on the same (channel, key)
     SongOpts() : maxTracks(4), maxEventsPerTrack(30), tempoChanges(true), allowSysex(true), allowMeta(true),
-        controllerRich(false), eotVariants(true), maxSeconds(12.0), loopMarkers(0) {}
+        controllerRich(false), eotVariants(true), maxSeconds(12.0), loopMarkers(0), smallAlphabet(false) {}
 };
 
 struct UniqueTags
@@ -190,15 +191,19 @@ static inline Song genSong(Rng &r, const SongOpts &o, UniqueTags *tagsOut = NULL
         double secBudget = o.maxSeconds * r.real(0.3, 1.0);
         uint32_t maxStep = (uint32_t)std::max(1.0, secBudget * tps / (double)ne * 2.0);
         std::vector<std::pair<int, int> > sounding; // (ch, note) currently on in this track
+        std::vector<std::pair<int, int> > struck;   // every (ch, note) this track has struck so far: re-strikes of the same key are drawn from here
+        int zeroLenOff = -1;                         // >= 0: the next event is the note-off of sounding[zeroLenOff] at the same tick (a zero-length note)
         for(int i = 0; i < ne; ++i)
         {
             // delta: clusters of zero, small steps, occasional big gaps
             uint32_t step = r.chance(0.3) ? 0 : (r.chance(0.8) ? (uint32_t)r.range(1, maxStep) : (uint32_t)r.range(maxStep, maxStep * 3));
             if(i == 0 && r.chance(0.5)) step = 0;
+            if(zeroLenOff >= 0) step = 0;
             tick += step;
             SEvent e; e.tick = tick; e.id = idCounter++;
             int kind = (int)r.weighted({ 30, 18, 16, 6, 6, 4, 3, o.allowSysex ? 4 : 0, o.allowMeta ? 5 : 0, (o.tempoChanges && tk == 0) ? 5 : 0 });
             if(o.controllerRich) kind = (int)r.weighted({ 14, 8, 40, 14, 14, 0, 0, 0, 2, (o.tempoChanges && tk == 0) ? 6 : 0 });
+            if(zeroLenOff >= 0) kind = 1;
             int ch = (int)r.below(16);
             bool ok = false;
             for(int attempt = 0; attempt < 40 && !ok; ++attempt)
@@ -208,14 +213,16 @@ static inline Song genSong(Rng &r, const SongOpts &o, UniqueTags *tagsOut = NULL
                 {
                 case 0: // note on
                     e.status = 0x90; e.ch = (uint8_t)ch; e.d1 = (uint8_t)r.range(12, 110); e.d2 = (uint8_t)r.range(1, 127);
+                    if(o.smallAlphabet) { e.ch = (uint8_t)r.pick<int>({ 0, 1, 9 }); e.d1 = (uint8_t)r.pick<int>({ 36, 40, 60, 62, 64, 67 }); }
+                    if(!struck.empty() && r.chance(0.35)) { size_t k = r.below(struck.size()); e.ch = (uint8_t)struck[k].first; e.d1 = (uint8_t)struck[k].second; }   // same key again
                     ok = tags.take(((uint64_t)0x90 << 32) | ((uint64_t)e.ch << 16) | ((uint64_t)e.d1 << 8) | e.d2);
-                    if(ok) sounding.push_back(std::make_pair((int)e.ch, (int)e.d1));
+                    if(ok) { sounding.push_back(std::make_pair((int)e.ch, (int)e.d1)); struck.push_back(sounding.back()); if(r.chance(0.25)) zeroLenOff = (int)sounding.size() - 1; }
                     break;
                 case 1: // note off (of a sounding note when possible)
                 {
-                    if(!sounding.empty() && r.chance(0.9))
+                    if(!sounding.empty() && (zeroLenOff >= 0 || r.chance(0.9)))
                     {
-                        size_t k = r.below(sounding.size()); e.ch = (uint8_t)sounding[k].first; e.d1 = (uint8_t)sounding[k].second;
+                        size_t k = zeroLenOff >= 0 && (size_t)zeroLenOff < sounding.size() ? (size_t)zeroLenOff : r.below(sounding.size()); e.ch = (uint8_t)sounding[k].first; e.d1 = (uint8_t)sounding[k].second;
                         e.status = 0x80; e.d2 = (uint8_t)r.range(0, 127);
                         ok = tags.take(((uint64_t)0x80 << 32) | ((uint64_t)e.ch << 16) | ((uint64_t)e.d1 << 8) | e.d2);
                         if(ok) sounding.erase(sounding.begin() + (long)k);
@@ -284,6 +291,7 @@ static inline Song genSong(Rng &r, const SongOpts &o, UniqueTags *tagsOut = NULL
                 }
                 }
             }
+            if(kind == 1) zeroLenOff = -1;
             if(ok) t.ev.push_back(e);
         }
         // end of track
@@ -302,10 +310,10 @@ static inline Song genSong(Rng &r, const SongOpts &o, UniqueTags *tagsOut = NULL
 
 // Stock songs for checks that only need "a valid file" (C03, C18, C14): kind 0 plain SMF, 1 SMF with loop
 // markers, 2 RMI-wrapped, 3 GMF-style
-static inline std::vector<uint8_t> stockSong(uint64_t seed, int kind)
+static inline std::vector<uint8_t> stockSong(uint64_t seed, int kind, bool smallAlphabet = false)
 {
     Rng r(mix64(seed, 0x50A6));
-    SongOpts o; o.maxSeconds = 6.0; o.maxEventsPerTrack = 40; o.eotVariants = (kind != 1);
+    SongOpts o; o.maxSeconds = 6.0; o.maxEventsPerTrack = 40; o.eotVariants = (kind != 1); o.smallAlphabet = smallAlphabet;
     Song s = genSong(r, o);
     if(kind == 1 && !s.tracks.empty() && s.tracks[0].ev.size() >= 2)
     {
